@@ -73,6 +73,35 @@ Theorem C19_wedge_arms_sound : forall G, laws G -> forall cenv fenv l r,
 Proof. exact mk_wedge_sound. Qed.
 Print Assumptions C19_wedge_arms_sound.
 
+(* since 757e1d0: a zero operand gives 0 (no ExteriorProduct(0, w) with a raw int any more) *)
+Theorem C19_wedge_zero_left : forall l r, eq0 l = true -> mk_wedge l r = zero.
+Proof. exact wedge_zero_l. Qed.
+Print Assumptions C19_wedge_zero_left.
+
+Theorem C19_wedge_zero_right : forall l r, eq0 r = true -> mk_wedge l r = zero.
+Proof. exact wedge_zero_r. Qed.
+Print Assumptions C19_wedge_zero_right.
+
+(* since 1a620f5: re-evaluation whenever a coefficient was pulled out, also when they cancel *)
+Theorem C19_wedge_coefficient_arm : forall rec l r, (extracted l || extracted r)%bool = true ->
+  wedge_core rec l r =
+  scale (cmul (fst (split_coeff l)) (fst (split_coeff r))) (rec (snd (split_coeff l)) (snd (split_coeff r))).
+Proof. exact wedge_core_extracted. Qed.
+Print Assumptions C19_wedge_coefficient_arm.
+
+Theorem C19_wedge_cancelling_coefficients_after_fix :
+  let t := TWedge (TScale (CNum (1 # 2)%Q) (TSum [TForm "u" 0 3; TForm "w" 0 3])) (TScale (CNum 2%Q) (TForm "v" 1 3)) in
+  eqv true (eval t) (sadd [Wedge (Form "u" 0 3) (Form "v" 1 3); Wedge (Form "w" 0 3) (Form "v" 1 3)]) = true.
+Proof. exact after_fix_wedge_cancel. Qed.
+Print Assumptions C19_wedge_cancelling_coefficients_after_fix.
+
+Theorem C19_wedge_zero_after_fix :
+  eval (TWedge (TD (TD (TForm "u" 0 3))) (TForm "v" 1 3)) = zero /\
+  eval (TSum [TWedge (TForm "u" 0 3) (TForm "v" 1 3); TWedge (TD (TD (TForm "u" 0 3))) (TForm "v" 1 3)])
+    = Wedge (Form "u" 0 3) (Form "v" 1 3).
+Proof. exact after_fix_wedge_zero. Qed.
+Print Assumptions C19_wedge_zero_after_fix.
+
 (* ------------------------------------------------------------------ all programs of the property's grammar *)
 Theorem C19_program_sound : forall G, laws G -> forall cenv fenv t,
   wft G fenv t -> const_free t = true ->
@@ -109,14 +138,73 @@ Theorem C19_deltadelta_syntactic_partial : forall ts, mk_delta (Add (map Delta t
 Proof. exact deltadelta_sum_of_delta. Qed.
 Print Assumptions C19_deltadelta_syntactic_partial.
 
+(* since 93cc443 the remaining factor is evaluated again below a pulled-out coefficient: all q, m, v *)
+Theorem C19_d_coefficient_arm : forall q m v, m_pow m = [] -> has_coeffs q m = true ->
+  mk_d (Mul q m v) = scale (q, m_lin m) (mk_d v).
+Proof. exact mk_d_coeff. Qed.
+Print Assumptions C19_d_coefficient_arm.
+
+Theorem C19_delta_coefficient_arm : forall q m v, m_pow m = [] -> has_coeffs q m = true ->
+  mk_delta (Mul q m v) = scale (q, m_lin m) (mk_delta v).
+Proof. exact mk_delta_coeff. Qed.
+Print Assumptions C19_delta_coefficient_arm.
+
+Theorem C19_hodge_coefficient_arm : forall q m v, m_pow m = [] -> has_coeffs q m = true ->
+  mk_hodge (Mul q m v) = scale (q, m_lin m) (mk_hodge v).
+Proof. exact mk_hodge_coeff. Qed.
+Print Assumptions C19_hodge_coefficient_arm.
+
+Theorem C19_dd_below_coefficient : forall q m x, m_pow m = [] -> has_coeffs q m = true ->
+  mk_d (Mul q m (D x)) = zero.
+Proof. exact dd_coeff. Qed.
+Print Assumptions C19_dd_below_coefficient.
+
+Theorem C19_deltadelta_below_coefficient : forall q m x, m_pow m = [] -> has_coeffs q m = true ->
+  mk_delta (Mul q m (Delta x)) = zero.
+Proof. exact deltadelta_coeff. Qed.
+Print Assumptions C19_deltadelta_below_coefficient.
+
+Theorem C19_d_top_below_coefficient : forall q m s n, m_pow m = [] -> has_coeffs q m = true ->
+  mk_d (Mul q m (Form s n n)) = zero.
+Proof. exact d_top_coeff. Qed.
+Print Assumptions C19_d_top_below_coefficient.
+
+Theorem C19_delta_bot_below_coefficient : forall q m s n, m_pow m = [] -> has_coeffs q m = true ->
+  mk_delta (Mul q m (Form s 0 n)) = zero.
+Proof. exact delta_bot_coeff. Qed.
+Print Assumptions C19_delta_bot_below_coefficient.
+
+(* the inputs that failed before the repairs *)
+Theorem C19_dd_after_fix : eval (TD (TD (TScale (CNum 2%Q) (TForm "u" 0 3)))) = zero.
+Proof. exact after_fix_dd. Qed.
+Print Assumptions C19_dd_after_fix.
+
+Theorem C19_d_top_after_fix : eval (TD (TScale (CNum 3%Q) (TForm "v" 3 3))) = zero.
+Proof. exact after_fix_d_top. Qed.
+Print Assumptions C19_d_top_after_fix.
+
+Theorem C19_hodge_hodge_after_fix :
+  eval (THodge (THodge (TScale (CNum 2%Q) (TForm "u" 1 3)))) = Mul 2%Q [] (Form "u" 1 3).
+Proof. exact after_fix_hodge_hodge. Qed.
+Print Assumptions C19_hodge_hodge_after_fix.
+
+Theorem C19_lin_after_fix :
+  let t1 := TSum [TForm "u" 0 3; TForm "v" 0 3] in let t2 := TForm "w" 0 3 in let c := CSym "a" in
+  eqv true (eval (TD (tcomb c t1 t2))) (sadd [scale (coef_c c) (eval (TD t1)); eval (TD t2)]) = true.
+Proof. exact after_fix_lin_d. Qed.
+Print Assumptions C19_lin_after_fix.
+
+(* still open: a Pow of a Constant is not a coefficient (a*(a*u1 + d(y0))) *)
 Theorem C19_dd_syntactic_refuted :
-  exists t, const_free t = true /\ eval (TD (TD t)) <> zero /\
-            eval (TD (TD t)) = Mul 2%Q [] (D (D (Form "u" 0 3))).
+  const_free pow_prog = true /\ tdeg 3 pow_prog = Some 1 /\
+  eval (TD pow_prog) = Mul 1%Q [("a", 2)] (D (Form "u" 1 3)) /\
+  eval (TD (TD pow_prog)) = D (Mul 1%Q [("a", 2)] (D (Form "u" 1 3))) /\
+  eval (TD (TD pow_prog)) <> zero.
 Proof. exact dd_syntactic_refuted. Qed.
 Print Assumptions C19_dd_syntactic_refuted.
 
 Theorem C19_deltadelta_syntactic_refuted :
-  exists t, const_free t = true /\ eval (TDelta (TDelta t)) <> zero.
+  exists t, const_free t = true /\ tdeg 3 t = Some 2 /\ eval (TDelta (TDelta t)) <> zero.
 Proof. exact deltadelta_syntactic_refuted. Qed.
 Print Assumptions C19_deltadelta_syntactic_refuted.
 
@@ -185,7 +273,7 @@ Theorem C19_lin_wedge_right : forall G, laws G -> forall cenv fenv c t1 t2 w,
 Proof. exact law_lin_wedge_r. Qed.
 Print Assumptions C19_lin_wedge_right.
 
-(* the values themselves differ: a*d(u+v) against a*d(u) + a*d(v) *)
+(* the values themselves can still differ: d(a*(a*u) + w) = d(a**2*u) + d(w) against a**2*d(u) + d(w) *)
 Theorem C19_lin_syntactic_refuted :
   exists c t1 t2, const_free t1 = true /\ const_free t2 = true /\
     eqv true (eval (TD (tcomb c t1 t2))) (sadd [scale (coef_c c) (eval (TD t1)); eval (TD t2)]) = false.
@@ -260,13 +348,24 @@ Theorem C19_infer_sum_same_partial : forall ts k,
 Proof. exact infer_sum_same. Qed.
 Print Assumptions C19_infer_sum_same_partial.
 
-(* ... but a constant multiple is not: infere_type(2*u) is None, and u1 + 2*v1 is refused *)
-Theorem C19_infer_mul_none : forall q m v, infer (Mul q m v) = INone.
-Proof. exact infer_Mul_none. Qed.
-Print Assumptions C19_infer_mul_none.
+(* since c3f9f51 a constant multiple has the degree of its form factor: 2*u1 is typed, u1 + 2*v1 accepted *)
+Theorem C19_infer_mul : forall q m v, m_pow m = [] -> infer (Mul q m v) = infer v.
+Proof. exact infer_Mul. Qed.
+Print Assumptions C19_infer_mul.
+
+Theorem C19_infer_after_fix :
+  infer (Mul 2%Q [] (Form "u" 1 3)) = IOk 1 /\
+  infer (Add [Form "u" 1 3; Mul 2%Q [] (Form "v" 1 3)]) = IOk 1.
+Proof. exact after_fix_infer. Qed.
+Print Assumptions C19_infer_after_fix.
+
+(* still open: a multiple by a**2 is untyped and such a same-degree sum is refused *)
+Theorem C19_infer_mul_pow_none : forall q m v, m_pow m <> [] -> infer (Mul q m v) = INone.
+Proof. exact infer_Mul_pow_none. Qed.
+Print Assumptions C19_infer_mul_pow_none.
 
 Theorem C19_infer_sum_same_refuted :
-  let e := Add [Form "u" 1 3; Mul 2%Q [] (Form "v" 1 3)] in
+  let e := Add [Form "u" 1 3; Mul 1%Q [("a", 2)] (Form "v" 1 3)] in
   infer e = IErrValue /\
   forall G (HL : laws G) cenv fenv, wfe G fenv e -> deg G (denote G cenv fenv e) 1.
 Proof. exact infer_sum_same_refuted. Qed.
